@@ -342,7 +342,7 @@ int main(int argc, char **argv)
 {
 	int k, s, c, i, j, a, b;
 	nv_init(argc, argv);
-	k = atoi(nv_arg(argc, argv, "k", nv_thorough ? "2" : "1"));
+	k = atoi(nv_arg(argc, argv, "k", nv_thorough ? "2" : "2"));
 	make_shapes();
 	setenv("EXINIT", "", 1);
 	for (s = 0; s < 5; s++)
